@@ -1990,10 +1990,72 @@ def promote_wrap(node):
 ######################################################################
 
 
+# The YAML type expected for fields of the library and of declarations.
+yaml_field_types = dict(
+    attrs=dict,
+    fattrs=dict,
+    format=dict,
+    fstatements=dict,
+    doxygen=dict,
+    options=dict,
+    patterns=dict,
+    setup=dict,
+    splicer=dict,
+    splicer_code=dict,
+    copyright=list,
+    declarations=list,
+    typemap=list,
+    decl=str,
+    cxx_header=str,
+    namespace=str,
+    library=str,
+    language=str,
+    cpp_if=str,
+    C_error_pattern=str,
+    PY_error_pattern=str,
+)
+yaml_type_names = {dict: "dictionary", list: "list", str: "string"}
+
+def check_field_types(ddct):
+    """Check the YAML type of fields. A blank dictionary or list field
+    (None) is replaced by an empty one.
+    Raise RuntimeError for a field of the wrong type.
+    """
+    for key, kind in yaml_field_types.items():
+        if key not in ddct:
+            continue
+        value = ddct[key]
+        if value is None and kind is not str:
+            ddct[key] = kind()
+        elif value is None and key in ["cxx_header", "namespace"]:
+            pass # blank, see clean_dictionary
+        elif not isinstance(value, kind):
+            raise RuntimeError(
+                "Field '{}' must be a {}, found '{}' around line {}".format(
+                    key, yaml_type_names[kind], value,
+                    ddct.get("__line__", "?")))
+    for value in ddct.get("copyright", []):
+        if value is not None and not isinstance(value, str):
+            raise RuntimeError(
+                "Entries of 'copyright' must be strings, found '{}'"
+                .format(value))
+    for key in ["attrs", "typemap", "declarations"]:
+        # attrs is a dictionary of dictionaries,
+        # typemap and declarations are lists of dictionaries.
+        items = ddct.get(key, [])
+        if isinstance(items, dict):
+            items = [ v for k, v in items.items() if k != "__line__" ]
+        for value in items:
+            if not isinstance(value, dict):
+                raise RuntimeError(
+                    "Entries of '{}' must be dictionaries, found '{}' around line {}"
+                    .format(key, value, ddct.get("__line__", "?")))
+
 def clean_dictionary(ddct):
     """YAML converts some blank fields to None,
     but we want blank.
     """
+    check_field_types(ddct)
     for key in ["cxx_header", "namespace"]:
         if key in ddct and ddct[key] is None:
             ddct[key] = ""
@@ -2201,6 +2263,7 @@ def create_library_from_dictionary(node):
     Every class must have a name.
     """
 
+    check_field_types(node)
     if "copyright" in node:
         clean_list(node["copyright"])
 
@@ -2211,6 +2274,12 @@ def create_library_from_dictionary(node):
         # list of dictionaries
         for subnode in node["typemap"]:
             # Update fields for a type. For example, set cpp_if
+            if "type" not in subnode or \
+               not isinstance(subnode.get("fields"), dict):
+                raise RuntimeError(
+                    "typemap entries must have 'type' and a dictionary"
+                    " 'fields' around line {}".format(
+                        subnode.get("__line__", "?")))
             key = subnode["type"]
             fields = subnode["fields"]
             def_types = typemap.get_global_types()
